@@ -1,7 +1,7 @@
 ------------------------------ MODULE MCGlob ------------------------------
 (* Scenario generator and oracle for C12.
 
-   State = a glob character string.  The string grows by one *word* per step (a word is a single
+   State = a glob character string (and the number of words used).  The string grows by one *word* per step (a word is a single
    character for the character-level generator, the text of one token for the token-level
    generator), so every string of at most MaxWords words is one state and the work spreads over
    TLC's workers.  Everything goes through Glob!Parse: the token-level generator only produces
@@ -13,6 +13,7 @@
      err    documented parse result ("" = valid glob, else the error class)
      lerr   the same under the named deviation KF_UnopenedAlternatesAccepted
      strat  which GlobSet strategy the member would get (GlobStrategy!Strategy) -- a label only
+     kinds  the token kinds that occur (for coverage accounting)
      dig    digest (per path length) of { p over PathAlpha, |p| <= PathLen : Matches(Parse(chars), p, o) }
      mdig   digest (summed) over the second universe MetaAlpha / MetaLen (glob meta characters as
             path bytes); absent when MetaLen = 0
@@ -30,7 +31,6 @@ CONSTANTS Words, MinWords, MaxWords, OptSet,
 
 VARIABLES chars, nw
 vars == <<chars, nw>>
-View == chars
 
 Init == chars = <<>> /\ nw = 0
 Next == /\ nw < MaxWords
@@ -47,6 +47,9 @@ HasLetter(g) ==
      \/ g[i].k = "lit" /\ IsLetter(g[i].c)
      \/ g[i].k = "class" /\ \E j \in 1..Len(g[i].rs) : \E c \in (g[i].rs[j][1])..(g[i].rs[j][2]) : IsLetter(c)
      \/ g[i].k = "alt" /\ \E j \in 1..Len(g[i].bs) : HasLetter(g[i].bs[j])
+RECURSIVE Kinds(_)
+Kinds(g) == UNION {IF g[i].k = "alt" THEN {"alt"} \cup UNION {Kinds(g[i].bs[j]) : j \in 1..Len(g[i].bs)}
+                   ELSE IF g[i].k = "class" /\ g[i].neg THEN {"negclass"} ELSE {g[i].k} : i \in 1..Len(g)}
 \* drop option combinations that cannot make a difference for this string: backslash_escape off
 \* without a backslash, empty_alternates without an empty branch, case_insensitive without a letter
 Relevant(o, lp) == /\ (o.be \/ BSLASH \in Range(chars))
@@ -78,7 +81,7 @@ EmitFor(o) ==
      ELSE LET g == lp.toks
               st == Strategy(g, o)
           IN PrintT(<<"EMIT", ToJson([chars |-> chars, o |-> o, err |-> pr.err, lerr |-> "",
-                                      strat |-> st.kind,
+                                      strat |-> st.kind, kinds |-> Kinds(g),
                                       dig |-> Digest(g, o, PathAlpha, PathLen),
                                       mdig |-> IF MetaLen = 0 THEN <<>> ELSE DigestSum(g, o, MetaAlpha, MetaLen),
                                       srep |-> IF st.kind = "regex" \/ StratLen = 0 THEN <<>>
